@@ -62,6 +62,10 @@ type Gen struct {
 	Pending    []func(ok func(common.Hash) bool, height uint32)
 	StableH    uint32
 	RandomCode bool
+	// emitted holds the hash of every candidate (and box sub-transaction) Next has handed out: two draws can
+	// coincide in every field (same sender, arguments and expiry), and a transaction that is already in the chain
+	// is not something an honest miner is offered by its pool (replays are C04's subject, built there on purpose)
+	emitted map[common.Hash]bool
 }
 
 // Cfg tunes a generator.
@@ -227,13 +231,50 @@ func (g *Gen) randomCode() []byte {
 // Next draws the candidate list of one block at chain time t.
 func (g *Gen) Next(t uint32, height uint32, n int) []Cand {
 	var out []Cand
+	if g.emitted == nil {
+		g.emitted = map[common.Hash]bool{}
+	}
 	for len(out) < n {
+		np := len(g.Pending)
 		c, ok := g.one(t, height)
-		if ok {
-			out = append(out, c...)
+		if !ok {
+			continue
 		}
+		hs := candHashes(c)
+		dup := false
+		seen := map[common.Hash]bool{}
+		for _, h := range hs {
+			if g.emitted[h] || seen[h] {
+				dup = true
+			}
+			seen[h] = true
+		}
+		if dup {
+			g.Pending = g.Pending[:np]
+			continue
+		}
+		for _, h := range hs {
+			g.emitted[h] = true
+		}
+		out = append(out, c...)
 	}
 	return out
+}
+
+// candHashes lists the hashes of the candidates and of the sub-transactions of boxes among them.
+func candHashes(cs []Cand) []common.Hash {
+	var hs []common.Hash
+	for _, c := range cs {
+		hs = append(hs, c.Tx.Hash())
+		if c.Tx.Type() == params.BoxTx {
+			if box, err := types.GetBox(c.Tx.Data()); err == nil {
+				for _, s := range box.SubTxList {
+					hs = append(hs, s.Hash())
+				}
+			}
+		}
+	}
+	return hs
 }
 
 func (g *Gen) one(t uint32, height uint32) ([]Cand, bool) {
